@@ -235,7 +235,7 @@ PROPS["C25"] = {
     ],
     "trusted_base": [
         "carrier contracts on arrow RecordBatch (R6): num_rows() == number of rows; slice(o,l) is rows[o..o+l] and requires o+l <= num_rows",
-        "c25_compare_rows: the closure is verified as a function whose parameter list restates the closure's (outside the copied region); R5 indexed iteration over the `order_by` slice; carriers: evaluate_expr = oracle for the key column of a batch, ArrayRef::as_ref, arrow::array::make_comparator returns a closure whose call contract is Arrow's order under the SortOptions it was given (assumed dependency contract, the same one the Kani carrier states); assumed std contract: `==`/`!=` on std::cmp::Ordering is structural (assume_specification on PartialEq::eq)",
+        "c25_compare_rows: the closure is verified as a function whose parameter list restates the closure's (outside the copied region); R5 indexed iteration over the `order_by` slice; carriers: evaluate_expr = oracle for the key column of a batch, ArrayRef::as_ref, arrow::array::make_comparator returns a closure whose call contract is Arrow's order under the SortOptions it was given, DEFINED (open spec fn arrow_cmp, assumed dependency contract, the same one the Kani carrier states) as: two NULLs tie, a NULL goes first iff nulls_first whatever the direction, values by an uninterpreted total order reversed when descending; ArrayRef::is_null / is_valid read the same NULL predicate; SortOptions::default() = ascending, nulls first; assumed std contract Ordering::reverse; assumed std contract: `==`/`!=` on std::cmp::Ordering is structural (assume_specification on PartialEq::eq)",
         "R5: in c25_spilled_fetch `for batch in result` is verified as `for gi in 0..result.len()` with `let batch = &result[gi]` (same elements, same order; the Vec is consumed in the real code, borrowed in the unit); R1: ExternalSortExec reduced to its `fetch` field",
         "R1: LimitState reduced to skip/fetch/skipped/fetched (operator plumbing fields dropped); ghost parameter `consumed` added to take_from's verified signature (spec-only)",
         "the stream::unfold loop that calls take_from once per batch, partitions in index order, is structural and not verified",
